@@ -423,6 +423,8 @@ def build_file(columns, codec=0, with_crc=False, created_by=b"robust_pq", schema
             vbody = plain(t, present, col.get("tlen", 0))
             enc = PLAIN
         body = b""
+        if "rep_levels" in col:
+            body += levels_block(col["rep_levels"], col["max_rep"])
         if "levels" in col:
             body += levels_block(col["levels"], col["max_def"])
         elif rep == OPTIONAL:
@@ -444,7 +446,8 @@ def build_file(columns, codec=0, with_crc=False, created_by=b"robust_pq", schema
     schema = [[[4, T_BINARY, b"schema"], [5, T_I32, len(columns)]]]
     if schema_elems is not None:
         schema = []
-        for (nm, ty, rp, nch, tl) in schema_elems:
+        for se in schema_elems:
+            (nm, ty, rp, nch, tl) = se[:5]
             e = []
             if ty is not None:
                 e.append([1, T_I32, ty])
@@ -455,6 +458,8 @@ def build_file(columns, codec=0, with_crc=False, created_by=b"robust_pq", schema
             e.append([4, T_BINARY, nm.encode()])
             if ty is None:
                 e.append([5, T_I32, nch])
+            if len(se) > 5 and se[5] is not None:
+                e.append([10, T_STRUCT, se[5]])           # LogicalType union, given as a decoded struct
             schema.append(e)
     for col in (columns if schema_elems is None else []):
         e = [[1, T_I32, col["type"]]]
